@@ -260,8 +260,9 @@ Qed.
 (* ---- consequences ---- *)
 Lemma semv_nonneg p : pc_wf p -> 0 <= semv p.
 Proof.
-  intros [W _]. unfold semv, semarg. destruct p; try lia;
-    try (match goal with |- context [pc_args ?q] => destruct (pc_args q) as [a0|] eqn:E; [specialize (W a0 E); unfold args_ok in W; lia|lia] end).
+  intros [W _]. unfold semv. destruct (semarg p) as [a|] eqn:E; [|lia].
+  assert (Ha : pc_args p = Some a). { unfold semarg in E. destruct p; try discriminate E; exact E. }
+  specialize (W a Ha). unfold args_ok in W. lia.
 Qed.
 Lemma semv_wait p : pc_wf p -> waitpc p = true -> 0 < semv p.
 Proof.
